@@ -361,11 +361,22 @@ func BuildVsync() (string, int, *ConcInfo, error) {
 	if err != nil {
 		return "", 0, info, err
 	}
+	// map iteration is pinned to the canonical (sorted) order in this variant, so that an execution is a function of the
+	// schedule alone (the map-order DFS of C06 owns the other orders)
+	mapFiles, _, merr := MapRangeRewrites()
+	if merr != nil {
+		return "", 0, info, merr
+	}
 	imp1 := RewriteImport("sync", "sync", "verif/shim/vsync")
 	imp2 := RewriteImport("sync/atomic", "atomic", "verif/shim/vatomic")
 	exe, n, err := Build("vsync", func(path string, src []byte) ([]byte, bool) {
 		changed := false
 		if b, ok := conc[path]; ok {
+			src, changed = b, true
+			if _, both := mapFiles[path]; both {
+				info.Unsupported = append(info.Unsupported, "map ranges of "+shortPath(path)+" (the file also starts goroutines or uses channels)")
+			}
+		} else if b, ok := mapFiles[path]; ok {
 			src, changed = b, true
 		}
 		if b, ok := imp1(path, src); ok {
